@@ -155,7 +155,12 @@ def gen_scripts(pid, tier, seed, nquick=1200, nthorough=12000):
         kw = dict(kw)
         if k % 10 == 9 and not kw.get("leakcheck"): kw["malformed"] = True
         prof = apigen.profile(**kw)
-        out.append(apigen.generate(rng, prof)); tags.append(name)
+        sc = apigen.generate(rng, prof)
+        if not loops_wellformed(sc):
+            # a malformed line broke the Sodium loop rule (loop closed in its defining transaction): out of scope of S
+            kw["malformed"] = False
+            sc = apigen.generate(rng, apigen.profile(**kw))
+        out.append(sc); tags.append(name)
     return out, tags
 
 
